@@ -42,7 +42,10 @@ def gen_cases(tier, seed):
         # now and then the destination path of one file is already occupied by something that is not a regular file (a character
         # device like /dev/null, a FIFO would block): the mode's contract is the same
         devdest = r.random() < 0.12
-        yield {"devdest": devdest, "spec": spec, "driver": driver, "mode": mode, "answer": ans, "okfiles": sorted(r.sample(range(nf), r.randint(1, nf))) if ans == "mixed" else None,
+        # ... or the destination already holds an older, fully written (and longer) version of every file: nothing of it may show
+        # through, whichever way the new content gets there
+        older = not devdest and r.random() < 0.3
+        yield {"older": older, "devdest": devdest, "spec": spec, "driver": driver, "mode": mode, "answer": ans, "okfiles": sorted(r.sample(range(nf), r.randint(1, nf))) if ans == "mixed" else None,
                "args": ["--driver", driver, "-w", str(r.choice([0, 1, 2, 4])), "--block-size", "32KB", "--reflink", r.choice([mode, mode, mode.upper(), mode.capitalize()]), "-r", "src", "dst"],
                "fs": "tmpfs" if r.random() < 0.2 else "ext4", "sched": r.choice(["free", "pct"]), "sseed": r.randrange(1 << 30),
                # verbose logging whose output cannot be written (full disk behind a redirection, reader gone): the mode's contract is unchanged
@@ -57,6 +60,10 @@ def run_case(case):
         if case.get("devdest"):
             f0 = [e for e in case["spec"] if e["k"] == "f"][0]["p"]
             tree.materialize(root, [{"p": "dst", "k": "d"}, {"p": "dst/src", "k": "d"}, {"p": "dst/src/d", "k": "d"}, {"p": "dst/" + f0, "k": "chr", "rdev": [1, 3], "mode": 0o666}])
+        if case.get("older"):
+            tree.materialize(root, [{"p": "dst", "k": "d"}, {"p": "dst/src", "k": "d"}, {"p": "dst/src/d", "k": "d"}] +
+                             [{"p": "dst/" + e["p"], "k": "f", "size": e["size"] + 12345, "seed": 4242 + k, "segs": None} for k, e in enumerate(case["spec"]) if e["k"] == "f"])
+            res["counters"]["runs-over-an-older-copy"] = 1
         pre = tree.snapshot(root)
         ans = case["answer"]
         rules = []
@@ -68,8 +75,9 @@ def run_case(case):
             rules.append({"id": "c", "sys": "ioctl", "iocmd": core.FICLONE, "under": U, "action": "cloneok"})
         elif ans == "mixed":
             files = [e for e in case["spec"] if e["k"] == "f"]
+            where = {m["src"]: m["dst"] for m in model.map_sources(pre, root, ["src"], "dst")[0]}
             for j in case["okfiles"]:
-                rules.append({"id": "ok%d" % j, "sys": "ioctl", "iocmd": core.FICLONE, "suffix": "/dst/" + files[j]["p"], "action": "cloneok"})
+                rules.append({"id": "ok%d" % j, "sys": "ioctl", "iocmd": core.FICLONE, "suffix": "/" + where[files[j]["p"]], "action": "cloneok"})
             rules.append({"id": "no", "sys": "ioctl", "iocmd": core.FICLONE, "under": U, "action": "fault", "errno": EOPNOTSUPP})
         plan = {"log_mode": "full", "rules": rules, "sched": case["sched"], "sched_seed": case["sseed"], "pct_horizon": 300}
         args_ = list(case["args"])
@@ -116,7 +124,8 @@ def run_case(case):
                         res["viol"].append({"sig": sig0 + ":exit0-without-clone", "what": "--reflink=always exited 0 but %s was not produced by a successful clone (events %s); %s" % (m["dst"], ev[:5], tag)})
                     elif datac:
                         res["viol"].append({"sig": sig0 + ":data-copy-with-always", "what": "--reflink=always but %s also received %d data call(s); %s" % (m["dst"], len(datac), tag)})
-                if unavailable or ans in ("mixed", "eio"):
+                some_refused = ans == "mixed" and len(case["okfiles"]) < len([e for e in case["spec"] if e["k"] == "f"])
+                if unavailable or ans == "eio" or some_refused:
                     res["viol"].append({"sig": sig0 + ":exit0-although-unsupported", "what": "--reflink=always and cloning answered %s, yet exit 0; %s" % (ans, tag)})
         else:  # auto
             for m in files:
